@@ -28,6 +28,11 @@ theorem map_lawfulAs (I : Iterable α) (f : α → β) {l : List α} (h : Lawful
       show Option.map f (g0 (Int.ofNat i)) = some ((l.map f)[i])
       rw [e]; simp
 
+/-- the embedding `embI` walks, counts and indexes exactly like `mapI` (it differs only in what `get` does to the cursor) -/
+theorem emb_lawfulAs (I : Iterable α) (f : α → β) {l : List α} (h : LawfulAs I l) : LawfulAs (embI I f) (l.map f) :=
+  let m := map_lawfulAs I f h
+  ⟨m.fwd, m.bwd, m.len, m.get⟩
+
 /-! ### Filter -/
 
 theorem filter_lawfulAs (I : Iterable α) (p : α → Bool) (fuel : Nat) {l : List α} (h : LawfulAs I l)
@@ -328,7 +333,7 @@ theorem rangeList_count (n : Nat) : rangeList 0 n 1 = (List.range n).map (fun (j
 
 theorem enum_lawfulAs (I : Iterable α) (inj : Int → α) {l : List α} (h : LawfulAs I l) :
     LawfulAs (enumI I l.length inj) (zipLists [(List.range l.length).map (fun (j : Nat) => inj (j : Int)), l]) := by
-  have hr := map_lawfulAs (rangeI 0 l.length 1) inj (range_lawfulAs 0 l.length 1)
+  have hr := emb_lawfulAs (rangeI 0 l.length 1) inj (range_lawfulAs 0 l.length 1)
   rw [rangeList_count, List.map_map] at hr
   refine zip_lawfulAs _ _ (by simp) l.length ?_ (All₂.cons hr (All₂.cons h All₂.nil))
   intro x hx
